@@ -23,7 +23,10 @@ CHECKS = {
              "(phase 2) and the raw-transaction (phase 1) validation entry points are requests of the model, and the "
              "protocol-handler leg drives the real handlers (protocol versions 4-6, transactional store) with the semantic "
              "and the raw messages (ValidateCommitmentTx[2], RevokeCommitmentTx, GetPerCommitmentPoint, "
-             "SignCommitmentTx, SignLocalCommitmentTx2, SignMutualCloseTx[2], SignRemoteCommitmentTx[2]).",
+             "SignCommitmentTx, SignLocalCommitmentTx2, SignMutualCloseTx[2], SignRemoteCommitmentTx[2]). The same "
+             "side is also explored under the validator stack vlsd installs (OnchainValidatorFactory over the simple "
+             "validator, funding confirmed and buried), and the signature kinds include the counterparty's valid "
+             "signatures of another commitment number (replay).",
         technique="TLA+ spec + TLC model checking; implementation state-graph extraction validated edge-by-edge and "
                   "monitored by TLC; simulated behaviours replayed and trace-validated"),
     "C02": dict(
@@ -51,7 +54,9 @@ CHECKS = {
         text="On every refused edge of the exhaustively extracted implementation state graphs (channel requests on the "
              "product of holder and counterparty alphabets and through the real protocol handlers over the transactional "
              "store; node-level requests incl. on-chain check+sign with channel funding; chain-tracker requests with "
-             "compact / streamed / full-block proofs) the harness records "
+             "compact / streamed / full-block proofs; node graphs with a tiny fee budget, a full table of approved "
+             "invoices with the payment velocity control observed, and invoices issued by the node itself; the channel "
+             "graph also under the on-chain validator stack) the harness records "
              "which of enforcement state / node state / tracker / store (exact key-version-value dump) changed; TLC "
              "evaluates the frame condition on all of them. Exploration level: exhaustive over (reachable state, refused "
              "request) pairs within the bounds, which is the quantifier of the property.",
@@ -65,7 +70,11 @@ CHECKS = {
              "histories continue on restored signers. Components: channel graphs, protocol handlers over the transactional "
              "store (also: a crash between prepare and commit), node-level requests (incl. funding withdrawals), and the "
              "channel life-cycle graphs (blocks with funding / closing / sweeping transactions, reorgs, heartbeats) where "
-             "the complete durable view incl. every tracker listener's watches is compared.",
+             "the complete durable view incl. every tracker listener's watches is compared. The running signer's view is "
+             "projected twice, through the store's own serde model and directly from its public fields (Debug), so that a "
+             "field dropped in the persistence model itself is seen. Pairs of node-level requests are also run "
+             "CONCURRENTLY under imposed schedules and the signer is restored once both have returned (ConcNode.tla "
+             "NonDurable).",
         technique="TLC evaluates restart-equality observations on every edge of implementation state graphs extracted for "
                   "the TLA+ specifications"),
 }
